@@ -684,7 +684,7 @@ pub fn block_has_sequence_regression(case: &Case) -> bool {
     crate::simdev::DISK.with(|d| {
         let d = d.borrow();
         d.parts.iter().skip(first_block).any(|b| {
-            let (located, _) = crate::parser::scan_block(b, g.blob_index_size);
+            let (located, _) = crate::parser::scan_block_raw(b, g.blob_index_size);
             located.windows(2).any(|w| w[1].sequence < w[0].sequence)
         })
     })
@@ -856,9 +856,89 @@ pub async fn c04_crash_enumeration(h: &mut Hyb) {
             Box::new(move || recover_on_prefix(case, j as u64, m, mask, n, second)),
         );
     }
+    // crash points by completion state: the device has acknowledged some writes, others are still in flight (foyer issues
+    // concurrent writes: several flushers, blob parts, the tombstone log); at the crash every acknowledged write is on
+    // the device and ANY subset of the writes in flight is. (An issue-order prefix is the special case "all of them".)
+    let pending_at = |m: usize| -> Vec<usize> {
+        simdev::DISK.with(|d| {
+            let d = d.borrow();
+            let t = d.writes[m].issue_seq;
+            d.writes.iter().take(m + 1).filter(|w| w.apply_seq.map(|a| a > t).unwrap_or(true)).map(|w| w.idx).collect()
+        })
+    };
+    let mut subset_points = 0;
+    let want = if thorough { n } else { 6 };
+    for i in 0..(if thorough { n } else { 24.min(n) }) {
+        if subset_points >= want || n == 0 {
+            break;
+        }
+        let m = if thorough { i } else { crate::choice::io_draw(n) };
+        let pending = pending_at(m);
+        if pending.len() < 2 {
+            continue;
+        }
+        subset_points += 1;
+        // each write in flight made it to the device or not
+        let persisted: Vec<usize> = pending.iter().copied().filter(|_| crate::choice::io_draw(2) == 0).collect();
+        let case = case.clone();
+        let j = 1_000_000 + i as u64;
+        crate::run::push_follow_up(
+            format!("recovery at the issue of write {m}/{n} with {} of {} writes in flight persisted", persisted.len(), pending.len()),
+            Box::new(move || recover_on_subset(case, j, m, pending, persisted)),
+        );
+    }
     // the process dies: whatever was in flight never completes
     crate::run::phase_done();
     h.shutdown(false).await;
+}
+
+/// Device image at the moment write `m` is issued: every write the device had acknowledged by then, plus the given
+/// subset of the writes in flight.
+fn subset_image(m: usize, persisted: &[usize]) -> Vec<Vec<u8>> {
+    use crate::simdev;
+    simdev::DISK.with(|d| {
+        let d = d.borrow();
+        let t = d.writes[m].issue_seq;
+        let sizes: Vec<usize> = d.parts.iter().map(|p| p.len()).collect();
+        let mut img: Vec<Vec<u8>> = sizes.iter().map(|s| vec![0u8; *s]).collect();
+        for w in d.writes.iter().take(m + 1) {
+            let acked = w.apply_seq.map(|a| a <= t).unwrap_or(false);
+            if acked || persisted.contains(&w.idx) {
+                let end = (w.offset + w.data.len()).min(img[w.part].len());
+                img[w.part][w.offset..end].copy_from_slice(&w.data[..end - w.offset]);
+            }
+        }
+        img
+    })
+}
+
+/// Runs inside its own simulated execution.
+fn recover_on_subset(case: Case, j: u64, m: usize, pending: Vec<usize>, persisted: Vec<usize>) {
+    use crate::simdev;
+    let img = subset_image(m, &persisted);
+    simdev::DISK.with(|d| {
+        let mut d = d.borrow_mut();
+        d.parts = img;
+        d.inflight = 0;
+    });
+    hist::fault("crash_with_inflight_subset");
+    hist::ev("crashs_begin", j, m as u64, pending.len() as u64);
+    for w in &pending {
+        hist::ev("crashs_inflight", j, *w as u64, persisted.contains(w) as u64);
+    }
+    let keys = case.get("keys").max(1) as u64;
+    shuttle::future::block_on(async move {
+        let mut h = Hyb { g: crate::hybscn::geo(&case), case: case.clone(), ctl: crate::hybscn::new_ctl(&case), cache: None, held: vec![] };
+        if !h.reopen().await {
+            return;
+        }
+        let cache = h.cache.clone().unwrap();
+        read_universe(&cache, keys, "crashs_get", j).await;
+        hist::ev("crashs_end", j, 0, 0);
+        drop(cache);
+        crate::run::phase_done();
+        h.shutdown(false).await;
+    });
 }
 
 /// Device image as of crash point (m, mask) of the workload's write log (`n` writes), plus - for the second crash of
@@ -1030,7 +1110,7 @@ pub fn c04_post(case: &Case) {
         *regress_cache.entry((m, mask, second.map(|x| x.0).unwrap_or(0), second.map(|x| x.1).unwrap_or(0))).or_insert_with(|| {
             let img = crash_image(m, mask, n, second);
             img.iter().skip(first_block).any(|b| {
-                let (located, _) = crate::parser::scan_block(b, g.blob_index_size);
+                let (located, _) = crate::parser::scan_block_raw(b, g.blob_index_size);
                 located.windows(2).any(|w| w[1].sequence < w[0].sequence)
             })
         })
@@ -1052,8 +1132,20 @@ pub fn c04_post(case: &Case) {
     }
     let mut lives: BTreeMap<u64, Life> = BTreeMap::new();
     let mut cur_life: Option<u64> = None;
+    // crash points by completion state: j -> (write being issued, the in-flight writes that made it to the device)
+    let mut subsets: BTreeMap<u64, (usize, Vec<usize>)> = BTreeMap::new();
     for e in &all_evs {
         match e.kind {
+            "crashs_begin" => {
+                subsets.insert(e.a, (e.b as usize, vec![]));
+            }
+            "crashs_inflight" => {
+                if e.c != 0 {
+                    if let Some(s) = subsets.get_mut(&e.a) {
+                        s.1.push(e.b as usize);
+                    }
+                }
+            }
             "crash_begin" => {
                 point.insert(e.a, (e.b as usize, e.c));
             }
@@ -1186,6 +1278,40 @@ pub fn c04_post(case: &Case) {
                     ("torn", (mask != 0).to_string()),
                     ("blob_pages", case.get("blob_pages").to_string()),
                     ("sequence_regression_in_a_block", regress_of(m, mask, None).to_string()),
+                ];
+                judge_first_life(k, got, t, &what, &shape_common, false);
+            }
+            "crashs_get" => {
+                let Some((m, persisted)) = subsets.get(&e.a) else { continue };
+                let (m, k, code) = (*m, e.b, e.c);
+                if m >= n {
+                    continue;
+                }
+                let t = writes[m].issue_seq;
+                hist::probe("c04_inflight_subset_key_judged");
+                let what = format!("crash when write {m}/{n} was issued, {} of the writes in flight on the device", persisted.len());
+                let Some(got) = decode(k, code, &what) else { continue };
+                let on_device = |w: &simdev::WriteRec| w.apply_seq.map(|a| a <= t).unwrap_or(false) || persisted.contains(&w.idx);
+                if writes.iter().take(m + 1).any(|w| on_device(w) && is_clean(w)) {
+                    hist::probe("c04_weak_clause_only");
+                    continue;
+                }
+                if !ops.contains_key(&k) {
+                    continue;
+                }
+                let regress = {
+                    let img = subset_image(m, persisted);
+                    img.iter().skip(first_block).any(|b| {
+                        let (located, _) = crate::parser::scan_block_raw(b, g.blob_index_size);
+                        located.windows(2).any(|w| w[1].sequence < w[0].sequence)
+                    })
+                };
+                let shape_common = vec![
+                    ("tomb", g.tomb.to_string()),
+                    ("torn", "false".to_string()),
+                    ("blob_pages", case.get("blob_pages").to_string()),
+                    ("sequence_regression_in_a_block", regress.to_string()),
+                    ("inflight_subset", "true".to_string()),
                 ];
                 judge_first_life(k, got, t, &what, &shape_common, false);
             }
@@ -1659,6 +1785,35 @@ pub async fn c07_checkpoint(h: &mut Hyb, what: &'static str) {
                 }
                 Err(e) => {
                     hist::violation("C07", "claimed-but-unloadable", format!("{what}: load of key {k} failed: {e}"), &[]);
+                }
+            }
+        }
+    }
+    // after a reopen, the converse: whatever the disk tier serves is the newest entry of that key which the format says
+    // is alive in the image (a blob behind a sequence regression is a leftover of an earlier life of its block)
+    if what == "after-reopen" {
+        for k in 0..keys {
+            if !cache.storage().may_contains(&k) {
+                continue;
+            }
+            if let Ok(foyer::Load::Entry { key, value, .. }) = cache.storage().load(&k).await {
+                if key != k {
+                    continue;
+                }
+                let crate::types::Tagged::Ok { ver, .. } = check_value(&value) else { continue };
+                hist::probe("c07_served_entry_checked_against_image");
+                let alive = newest.get(&k).and_then(|(_, p, off)| parser::parse_entry_at(&img[*p], *off)).and_then(|e| match e.value {
+                    Some(crate::types::Tagged::Ok { ver, .. }) => Some(ver),
+                    _ => None,
+                });
+                let compressed = case.get("comp") != 0 && case.get("comp_real") != 0;
+                if alive != Some(ver) && !(compressed && alive.is_none() && newest.contains_key(&k)) {
+                    hist::violation(
+                        "C07",
+                        "recovered-but-not-alive-in-image",
+                        format!("after-reopen: the disk tier serves key {k} v{ver}, but scanning the image by the format's rules finds {} as the newest live entry of that key", match alive { Some(v) => format!("v{v}"), None => "nothing".into() }),
+                        &[],
+                    );
                 }
             }
         }
